@@ -111,13 +111,12 @@ func (x *Exec) instr(fr *Frame, st *State, ins ssa.Instruction) error {
 			if name == "" {
 				name = t.Name()
 			}
-			fr.allocN[name]++
+			// name#k: the k-th local of that name in source order (independent of the order in which the engine
+			// visits the blocks)
+			rank := fr.allocRank(t)
 			key := fmt.Sprintf("f%d.%s", fr.id, name)
-			if fr.allocN[name] > 1 {
-				key = fmt.Sprintf("f%d.%s#%d", fr.id, name, fr.allocN[name])
-			}
-			if _, dup := st.Vars[key]; !dup {
-				fr.localKeys[name] = append(fr.localKeys[name], key)
+			if rank > 1 {
+				key = fmt.Sprintf("f%d.%s#%d", fr.id, name, rank)
 			}
 			st.Vars[key] = u.ZeroVal(et)
 			fr.regs[t] = Val{T: t.Type(), P: ptrTo(Addr{Kind: ALocal, T: et, Var: key})}
@@ -393,6 +392,20 @@ func (x *Exec) instr(fr *Frame, st *State, ins ssa.Instruction) error {
 			return err
 		}
 		tt := t.Tuple.Type().(*types.Tuple)
+		if nx, ok := t.Tuple.(*ssa.Next); ok {
+			// the tuple type of a range step has "invalid type" for components the loop does not use; the value
+			// always carries (ok, key, value): use the real component types
+			var real []*types.Var
+			real = append(real, types.NewVar(0, nil, "ok", types.Typ[types.Bool]))
+			if nx.IsString {
+				real = append(real, types.NewVar(0, nil, "k", types.Typ[types.Int]), types.NewVar(0, nil, "v", types.Typ[types.Rune]))
+			} else if mt, ok := nx.Iter.(*ssa.Range).X.Type().Underlying().(*types.Map); ok {
+				real = append(real, types.NewVar(0, nil, "k", mt.Key()), types.NewVar(0, nil, "v", mt.Elem()))
+			}
+			if len(real) == tt.Len() {
+				tt = types.NewTuple(real...)
+			}
+		}
 		lo := 0
 		for i := 0; i < t.Index; i++ {
 			lo += len(u.Layout(tt.At(i).Type()))
